@@ -275,7 +275,71 @@ def gen_edit(r, rng):
     return (assign, [Sym("assignItems"), [m for m, _ in new], 1 if bad else 0], "assign items" + (" (bad element)" if bad else ""))
 
 
+def subclass_iteration_family(ctx):
+    """a user's subclass of EMG that presents its signals in an order of its own (alphabetically, reversed, by channel) by overriding
+    `__iter__` — a VIEW for the user's loops. Which signal is bound to which channel, and what is written, is the block's business:
+    after adds with explicit and automatic channels and removals by label, the block's encoding (decoded by the plain library class)
+    must hold exactly the (channel, label, samples) triples that were given, in the order they were added."""
+    import struct
+    from basictdf.tdfEMG import EMG, EMGTrack
+    rng = ctx.rng
+
+    def mk(order):
+        class ViewEMG(EMG):
+            def __iter__(self):
+                its = list(EMG.__iter__(self))
+                if order == "alphabetical":
+                    return iter(sorted(its, key=lambda t: t.label))
+                if order == "reversed":
+                    return iter(its[::-1])
+                return iter(sorted(its, key=lambda t: float(t.data[0])))
+        return ViewEMG
+    for k in range(ctx.n(60, 600)):
+        order = rng.choice(["alphabetical", "reversed", "by-first-sample"])
+        n = rng.choice([1, 3, 8])
+        blk = mk(order)(1000, n)
+        expect = []          # (channel, label, first sample) in the order of addition
+        labels = rng.sample(["vastus", "biceps", "soleus", "tibialis", "gluteus", "rectus", "a", "Z"], rng.randrange(2, 6))
+        free = list(range(0, 30))
+        steps = []
+        try:
+            for lab in labels:
+                data = np.array([rng.randrange(-500, 500) + 0.5] + [float(rng.randrange(100)) for _ in range(n - 1)], dtype="<f4")
+                if rng.random() < 0.6:
+                    ch = rng.choice(free)
+                    blk.addSignal(EMGTrack(lab, data), channel=ch)
+                else:
+                    blk.addSignal(EMGTrack(lab, data))
+                    ch = None
+                enc = A.encode(blk)
+                got_ch = list(struct.unpack(f"<{len(expect) + 1}h", enc[16:16 + 2 * (len(expect) + 1)]))[-1]
+                if ch is not None and got_ch != ch:
+                    ctx.fail(f"emg subclass with {order} iteration: explicit channel {ch} not honoured (written {got_ch})", dict(order=order, labels=labels), ident="emg subclass view: explicit channel")
+                    break
+                free = [c for c in free if c != got_ch]
+                expect.append((got_ch, lab, float(data[0])))
+                steps.append(("add", lab, ch))
+                if len(expect) >= 3 and rng.random() < 0.35:
+                    victim = rng.choice(expect)
+                    blk.removeSignal(victim[1])
+                    expect.remove(victim)
+                    steps.append(("remove", victim[1]))
+            else:
+                dec = EMG._build(io.BytesIO(A.encode(blk)), blk.format.value)
+                enc = A.encode(blk)
+                chans = list(struct.unpack(f"<{len(expect)}h", enc[16:16 + 2 * len(expect)])) if len(dec) == len(expect) else None
+                got = [(c, t.label, float(t.data[0])) for c, t in zip(chans or [], EMG.__iter__(dec))]
+                ctx.case(("emg-subclass-view", order, tuple(labels), k), nontrivial=len(expect) >= 2, tags=("emg-subclass-view:" + order,))
+                if got != expect:
+                    ctx.fail(f"emg subclass with {order} iteration: (channel, label, first sample) given {expect}, written {got} after {steps}",
+                             dict(order=order, steps=steps), ident="emg subclass view: pairs written differ from pairs given")
+        except Exception as e:
+            ctx.fail(f"emg subclass with {order} iteration: a valid add/remove/encode raised {type(e).__name__}: {e} after {steps}", dict(order=order, steps=steps),
+                     ident="emg subclass view: operation raises")
+
+
 def run(ctx):
+    subclass_iteration_family(ctx)
     rng = ctx.rng
     runs = []
     for k in range(ctx.n(3000, 60000)):
